@@ -383,10 +383,23 @@ def same_named_helpers(res, tier):
             with open(os.path.join(d, "main.py"), "w", encoding="utf-8") as f:
                 f.write(OPTIONAL_MAIN.format(mod=mod))
             lone = os.path.join(d, "main.py")
+            # a project whose program imports its helper and then stops in the middle of its trace
+            d = os.path.join(tmp, f"{mod}fails")
+            if pkg:
+                os.makedirs(os.path.join(d, mod), exist_ok=True)
+                with open(os.path.join(d, mod, "__init__.py"), "w", encoding="utf-8") as f:
+                    f.write(bodies[1])
+            else:
+                os.makedirs(d, exist_ok=True)
+                with open(os.path.join(d, mod + ".py"), "w", encoding="utf-8") as f:
+                    f.write(bodies[1])
+            with open(os.path.join(d, "main.py"), "w", encoding="utf-8") as f:
+                f.write(HELPER_MAIN.format(mod=mod).replace("    return [Output", "    c = a + SecretBoolean(Input(name='c', party=p))\n    return [Output"))
+            failing = os.path.join(d, "main.py")
             cases += [[projs[0], projs[1]], [projs[1], projs[0]], [projs[0], projs[1], projs[2]], [projs[2], projs[0], projs[2]],
-                      [projs[0], lone], [projs[1], projs[0], projs[1]]]
+                      [projs[0], lone], [projs[1], projs[0], projs[1]], [failing, projs[0]], [failing, lone]]
         if tier == "quick":
-            cases = cases[:3] + cases[4:5] + cases[6:8] + cases[10:11]
+            cases = cases[:3] + cases[4:5] + cases[6:9] + cases[12:13] + cases[14:15]
 
         def one(paths):
             return paths, fresh_process("script", paths, tmp)[-1], fresh_process("script", paths[-1:], tmp)[-1]
